@@ -97,7 +97,7 @@ impl Prop for C13 {
         tier.pick(16, 240)
     }
     fn mandatory(&self, tier: Tier) -> Vec<String> {
-        let mut v: Vec<String> = ["sector:512", "sector:4096", "chain:Sequential", "chain:Reversed", "chain:Random", "mini:Reversed", "mini:Random", "meta:Front", "meta:Back", "meta:Scattered", "free_sectors", "dir_shuffled", "dir_holes", "overallocated_chains", "v3_size_high_dword_garbage", "dir_name_tail_garbage", "name_differing_only_in_case", "mini_stream", "no_mini_stream", "xls_workbook_via_layout", "xls_with_vba_via_layout", "book_and_workbook_streams", "size:0", "size:4095", "size:4096", "size:4097"]
+        let mut v: Vec<String> = ["sector:512", "sector:4096", "chain:Sequential", "chain:Reversed", "chain:Random", "mini:Reversed", "mini:Random", "meta:Front", "meta:Back", "meta:Scattered", "free_sectors", "dir_shuffled", "dir_holes", "overallocated_chains", "v3_size_high_dword_garbage", "dir_name_tail_garbage", "difat_end_freesect", "name_differing_only_in_case", "mini_stream", "no_mini_stream", "xls_workbook_via_layout", "xls_with_vba_via_layout", "book_and_workbook_streams", "size:0", "size:4095", "size:4096", "size:4097"]
             .iter().map(|s| s.to_string()).collect();
         let _ = tier;
         v.push("difat_sectors".into());
